@@ -25,25 +25,64 @@ struct ManIO<VecN<G, N>>;
 template<class G>
 struct ManIO<std::vector<G>> : ManIO<VecN<G, 3>> {};
 
+// how to build / serialise one element of a vector manifold: Lie groups directly, other manifold
+// models through their own ManIO
+template<class E>
+struct ElemIO {
+  static int dof() { return dof_of<E>(); }
+  static E make(In& in, int index) { return make_elem<E>(in, index); }
+  static void put(Out& out, const E& e) { put_elem(out, e); }
+  template<class C>
+  static void put_cast(Out& out, const C& e) { put_elem(out, e); }
+};
+template<class G>
+struct ElemIO<std::vector<G>> {
+  using IO = ManIO<std::vector<G>>;
+  static int dof() { return IO::dofhint(); }
+  static std::vector<G> make(In& in, int index) {
+    auto* p = IO::make(in, index);
+    std::vector<G> v = *p;
+    delete p;
+    return v;
+  }
+  static void put(Out& out, const std::vector<G>& e) { IO::put(out, e); }
+  template<class C>
+  static void put_cast(Out& out, const C& e) { IO::put_cast(out, e); }
+};
+template<class... Gs>
+struct ElemIO<std::variant<Gs...>> {
+  using IO = ManIO<std::variant<Gs...>>;
+  static int dof() { return IO::dofhint(); }
+  static std::variant<Gs...> make(In& in, int index) {
+    auto* p = IO::make(in, index);
+    std::variant<Gs...> v = *p;
+    delete p;
+    return v;
+  }
+  static void put(Out& out, const std::variant<Gs...>& e) { IO::put(out, e); }
+  template<class C>
+  static void put_cast(Out& out, const C& e) { IO::put_cast(out, e); }
+};
+
 template<class G, int N>
 struct ManIO<VecN<G, N>> {
   using M = std::vector<G>;
   static constexpr int n = N;
-  static int dofhint() { return n * dof_of<G>(); }
+  static int dofhint() { return n * ElemIO<G>::dof(); }
   static M* make(In& in, int index) {
     auto* m = new M;
-    for (int i = 0; i < n; ++i) m->push_back(make_elem<G>(in, index + i));
+    for (int i = 0; i < n; ++i) m->push_back(ElemIO<G>::make(in, index + i));
     return m;
   }
   static void put(Out& out, const M& m) {
     out.i64((int64_t)m.size());
-    for (const auto& g : m) put_elem(out, g);
+    for (const auto& g : m) ElemIO<G>::put(out, g);
   }
   static constexpr bool has_cast = true;
   template<class C>
   static void put_cast(Out& out, const C& m) {
     out.i64((int64_t)m.size());
-    for (const auto& g : m) put_elem(out, g);
+    for (const auto& g : m) ElemIO<G>::put_cast(out, g);
   }
 };
 
